@@ -89,8 +89,16 @@ impl<'a> Builder<'a> {
                     arr = vals.into_iter().collect();
                 } else {
                     for x in a {
-                        let (xv, xe) = self.value(x);
-                        match self.rng.below(4) {
+                        let (mut xv, xe) = self.value(x);
+                        let pick = self.rng.below(4);
+                        if (pick == 1 || pick == 3) && self.rng.chance(1, 3) {
+                            // a value that comes from somewhere else and still carries the trivia
+                            // of that place: `push` / `insert` apply default formatting, so none of
+                            // it may show (a comment before `,` or `]` would swallow them)
+                            self.route("Array::push / insert of a value carrying a comment from elsewhere");
+                            *xv.decor_mut() = toml_edit::Decor::new("\n  # was here\n  ", " # and here");
+                        }
+                        match pick {
                             0 => {
                                 self.route("Array::push_formatted");
                                 arr.push_formatted(xv);
